@@ -279,6 +279,10 @@ def run_case(case, strict=False):  # noqa: C901  pylint: disable=too-many-branch
             words = " X%s Y%s R%s" % (repr(ex), repr(ey), repr(case["R"]))
         elif case.get("full"):
             words = " I%s J%s" % (repr(i), repr(j))
+            if int(case["t"] * 1000) % 2:
+                # a complete circle may as well be written with its end point, which is its start point
+                words = " X%s Y%s" % (repr(sx), repr(sy)) + words
+                cl.add("full_circle_with_end_point")
         else:
             words = " X%s Y%s I%s J%s" % (repr(ex), repr(ey), repr(i), repr(j))
         if "e" not in words and "E" not in words:
